@@ -31,7 +31,8 @@ RULE = ("(solver class, K, antennas, streams, scalar|vector power over 3 "
         "GreedStreamIASolver / BruteForceStreamIASolver wrap each iterative "
         "solver on 2-3 user channels; afterwards the wrapped solver must satisfy "
         "all relations at the requested power."
-        "One stream-search case in eight is an over-loaded request (K=3, 3x3, 2 streams, high SNR) that the greedy wrapper reduces to one stream each before being used again. ")
+        "One stream-search case in eight is an over-loaded request (K=3, 3x3, 2 streams, high SNR) that the greedy wrapper reduces to one stream each before being used again. "
+        "Op new-stream-counts installs precoders and filters with other stream counts through the setters. ")
 ASSUMPTIONS = [
     "identity tolerance 1e3 eps kappa(W_H H_kk full_F); closed-form nulling "
     "1e-9 relative to ||W_H|| ||H_kl|| ||F_l|| times kappa of the channels",
@@ -199,7 +200,7 @@ def solve_call(ctx, s, name, Ns, P, tag):
 
 OPS = ["P=scalar", "P=vector", "P=None", "set_precoders(F)", "set_precoders(F,P)",
        "set_precoders(full_F)", "set_precoders(full_F,P)", "set_receive_filters(W_H)", "set_receive_filters(W)",
-       "randomizeF", "solve-again", "read-all"]
+       "randomizeF", "solve-again", "read-all", "new-stream-counts"]
 
 
 def case_solve(ctx, rng, idx):
@@ -288,6 +289,18 @@ def case_solve(ctx, rng, idx):
                                               np.array_equal(np.asarray(s.W_H[k]), herm(Xw[k]))
                                               for k in range(K)),
                        cls=name + ":installed-W", detail={**tag, "history": hist + [op]})
+            elif op == "new-stream-counts":
+                # another solution with OTHER stream counts is installed through
+                # the setters (precoders, then the matching receive filters)
+                new_Ns = [int(rng.integers(1, min(Nr[k], Nt[k]) + 1)) for k in range(K)]
+                newF = [rand_c(rng, Nt[k], new_Ns[k]) for k in range(K)]
+                s.set_precoders(F=obj_array([f / fro(f) for f in newF]))
+                s.set_receive_filters(W_H=obj_array([rand_c(rng, new_Ns[k], Nr[k])
+                                                     for k in range(K)]))
+                got_Ns = [int(x) for x in np.asarray(s.Ns)]
+                ctx.ev("shapes-and-stream-counts", got_Ns == new_Ns,
+                       cls=name + ":Ns-follows-installed-precoders",
+                       detail={**tag, "history": hist + [op], "installed": new_Ns, "Ns": got_Ns})
             elif op == "randomizeF":
                 s.randomizeF(np.array(cur_Ns), None if rng.random() < 0.5 else
                              10.0 ** rng.uniform(-1, 2, size=K))
@@ -320,14 +333,14 @@ def case_solve(ctx, rng, idx):
                   "randomizeF") for h in hist[1:]) and "solve-again" not in hist[-1:]
         last_solve = max(i for i, h in enumerate(hist) if h in ("solve", "solve-again"))
         touched_after = [h for h in hist[last_solve + 1:] if h.startswith(("P=", "set_prec",
-                                                                           "randomizeF"))]
+                                                                           "randomizeF", "new-stream"))]
         ex = exact or bool(touched_after)
         if "set_precoders(full_F)" in touched_after and not exact:
             ex = False
         if touched_after and touched_after[-1] == "set_precoders(full_F,P)" or (
                 "set_precoders(full_F,P)" in touched_after and not any(
                     h in ("set_precoders(F)", "set_precoders(F,P)", "randomizeF", "P=scalar",
-                          "P=vector", "P=None", "set_precoders(full_F)")
+                          "P=vector", "P=None", "set_precoders(full_F)", "new-stream-counts")
                     for h in touched_after[touched_after.index("set_precoders(full_F,P)") + 1:])):
             ex = False          # full_F was given below the budget: direction only
         cf = name == "closed" and all(h in ("solve", "solve-again", "read-all", "P=scalar",
